@@ -263,7 +263,7 @@ def listPredicates (pid : String) (feat : Features) (l : Ledger) (kind : String)
       | some t => data.all fun a => (optInt a "firstUsage").getD 0 ≤ t
       | none => true
     -- every account used (in effective time) at or before `pit` is listed
-    let all := !complete || (data.map (strOf · "address")) == docAccountsAt l q.pit
+    let all := !complete || (data.map (strOf · "address")).isPerm (docAccountsAt l q.pit)
     -- conservation per asset of the expanded *effective* volumes of a complete, unfiltered listing
     -- (an account first used after `pit` in effective time may already hold inserted moves, so
     -- the insertion-date volumes of the listed accounts need not sum to zero)
